@@ -20,6 +20,9 @@ func c19(c *core.Ctx) {
 		method := uint16(i)
 		for class := uint8(0); class < 4; class++ {
 			t := stun.MessageType{Method: stun.Method(method), Class: stun.MessageClass(class)}
+			if nt := stun.NewType(stun.Method(method), stun.MessageClass(class)); nt != t {
+				c.Violate("newtype", "NewType", map[string]interface{}{"method": method, "class": class, "got": fmt.Sprintf("%+v", nt)})
+			}
 			got := t.Value()
 			want := ref.JoinType(method, class)
 			c.Eval(1)
@@ -62,6 +65,22 @@ func c19(c *core.Ctx) {
 		}
 	})
 	c.MarkExhaustive("readvalue")
+	// one receiver carried across all values in scrambled orders: ReadValue must overwrite both fields every time
+	c.SectionSerial("readvalue-reused-receiver", 8, func(i int64, _ *gen.Rand) {
+		var t stun.MessageType
+		mult := []int{1, 3, 7, 4099, 32771, 65535, 12345, 54321}[i] | 1
+		for x := 0; x < 65536; x++ {
+			v := uint16(x*mult + int(i)*977)
+			t.ReadValue(v)
+			m, cl := ref.SplitType(v)
+			c.Eval(1)
+			if uint16(t.Method) != m || uint8(t.Class) != cl {
+				c.Violate("readvalue-mismatch", "ReadValue:reused-receiver", map[string]interface{}{"v": v, "got_method": t.Method, "got_class": t.Class, "want_method": m, "want_class": cl, "order_multiplier": mult})
+
+				return
+			}
+		}
+	})
 	// the same tables from several goroutines at once (each with its own MessageType values): the mapping is a pure function
 	c.SectionSerial("concurrent-sweep", 4, func(i int64, _ *gen.Rand) {
 		const g = 8
